@@ -3,6 +3,8 @@
 C18.Q FIFO discipline of _messages[key]; C18.K key mirror and send/recv key
 roles; C18.E empty non-blocking receive raises without sleeping or looping;
 C18.I a socket's key is published only after its callbacks are registered.
+C18.R rendezvous: connect / disconnect / _wait_for_remote / is_connected executed over the histories in which the
+peer acts while the first endpoint sleeps (either side first, peer stays or leaves again, callbacks on/off, timeout).
 Declined: lock discipline (CPython makes append/pop(0) atomic; a rule that
 demands the lock fires on behaviour-preserving edits) and everything about
 interleavings as such.
@@ -19,14 +21,15 @@ from .. import roles
 from ..model import AnalysisError, Unknown, dotted, src
 from .c12 import parents
 
-TECHNIQUE = "queue-discipline usage classification, key-mirror table check, publish-after-initialise ordering and a path rule on the non-blocking receive (static analysis)"
-ENGINES = ["model", "flow"]
+TECHNIQUE = "queue-discipline usage classification, key-mirror table check, publish-after-initialise ordering, a path rule on the non-blocking receive, and abstract interpretation of the registry methods over enumerated rendezvous histories by the checker's own AST interpreter (static analysis)"
+ENGINES = ["model", "flow", "circuit"]
 EXPLANATION = (
     "Over thread_socket/socket_hub.py and socket.py: every use of _messages is classified (append at the tail by send under the "
     "receiver's key, pop(0) by recv under the socket's own key, len); key and remote_key are mirror tuples (names swapped, same id); "
     "send looks the callback up and queues under remote_key, recv and callback registration use key; in recv the `raise` for an empty "
     "queue with block=False is reached from the emptiness test without passing a sleep call or a loop back edge, and the returned "
     "message is the one popped from the head; in connect the callbacks are registered before the key is added to _open_sockets."
+    " C18.R: the registry methods are executed by the checker's interpreter on a hub built from __init__ with two modelled sockets, the peer acting inside the waiting side's sleep (connect, or connect and disconnect), for either side first, with and without callbacks and timeout: connect returns exactly when the peer has been there, times out or keeps waiting otherwise, is_connected holds exactly while both are open, the peer's connection-lost callback runs once, and the tables are empty after both have left."
     " Whole-queue operations on _messages (clear, re-assignment, sort, del) are violations wherever they occur. C18.W: the receive wrappers reach hub.recv under no condition on the socket's own state. C18.Z: no truthiness test on an int-typed value."
 )
 LEVEL_TEXT = (
@@ -37,6 +40,147 @@ LEVEL_NOTE = "lock discipline deliberately not armed (CPython list append/pop(0)
 ASSUMPTIONS = [LEVEL_NOTE]
 HUB = "netqasm.sdk.classical_communication.thread_socket.socket_hub"
 SOCK = "netqasm.sdk.classical_communication.thread_socket.socket"
+
+
+def check_rendezvous(ctx, hub, rule="C18.R"):
+    """"Two endpoints find each other whichever side starts first", decided on the registry code by executing it.
+
+    connect / disconnect / is_connected / _wait_for_remote are run by the checker's interpreter on a hub object built from
+    __init__ with two modelled sockets.  `sleep` is the only place where the waiting thread lets the other one run, so every
+    history in which the second endpoint acts while the first one waits is a nesting: at the first thread's k-th sleep the
+    other thread performs a prefix of (connect, disconnect).  Enumerated: which side starts, the sleep at which the peer
+    arrives (first or second poll), how much of its life the peer lives inside that one sleep (connect only, or connect and
+    disconnect - "opens and closes before the other side notices"), callbacks on or off, and the order of the remaining
+    disconnects.  Required:
+      - connect returns exactly when the peer has connected at some time (still open or closed again), not before;
+      - with a timeout and no peer, TimeoutError; with no timeout and no peer, the waiting goes on (never a return);
+      - is_connected is true exactly while both are open;
+      - a disconnect calls the still-registered peer's connection-lost callback once;
+      - after both have disconnected the registry and the callback tables are empty (a later session starts clean).
+    """
+    from .. import circuit as C
+    repo = ctx.repo
+    m = hub.module
+    need = ["connect", "disconnect", "is_connected", "_wait_for_remote"]
+    for n_ in need:
+        if repo.lookup(hub, n_) is None:
+            raise AnalysisError(f"_SocketHub.{n_} not found")
+    ctx.fn("_SocketHub.connect")
+    ctx.fn("_SocketHub.disconnect")
+    ctx.fn("_SocketHub._wait_for_remote")
+
+    class _Log:
+        _nqsa_model = True
+
+        def debug(self, *a_, **k_):
+            return None
+        info = warning = error = debug
+
+    class Sock:
+        _nqsa_model = True
+
+        def __init__(self, me, peer, use_callbacks):
+            self.app_name, self.remote_app_name, self.id = me, peer, 0
+            self.key, self.remote_key = (me, peer, 0), (peer, me, 0)
+            self.use_callbacks = use_callbacks
+            self.lost = 0
+            self.got = []
+
+        def recv_callback(self, msg):
+            self.got.append(msg)
+
+        def conn_lost_callback(self):
+            self.lost += 1
+
+    def call(o, sc, name, *args, **kw):
+        r_ = repo.lookup(hub, name)
+        return C.Interp(repo, ctx.ev, sc, hub).call_function(r_[0].module, r_[1], list(args), kw, self_obj=o)
+
+    n_hist = 0
+    problems = []
+    for use_cb in (False, True):
+        for first in ("A", "B"):
+            for arrive_at in (None, 1, 2):          # the sleep of the first thread during which the peer acts (None: never)
+                for inside in ((1, 2) if arrive_at else (0,)):   # 1: peer connects; 2: peer connects and disconnects again
+                    for timeout in ((None, 0.5) if arrive_at is None else (None,)):
+                        for x_first in (True, False):  # order of the disconnects that remain after the rendezvous
+                            socks = {"A": Sock("alice", "bob", use_cb), "B": Sock("bob", "alice", use_cb)}
+                            X, Y = socks[first], socks["B" if first == "A" else "A"]
+                            clock = [0.0]
+                            sleeps = [0]
+                            sc = C.Scenario()
+                            o = C.object_from_init(repo, hub, {"_logger": _Log(), "_lock": _Log(), "_messages": {}}, kind="self")
+                            state = {"y_connected": False, "y_open": False, "x_open": False}
+
+                            def timer_():
+                                clock[0] += 0.2
+                                return clock[0]
+
+                            def sleep_(*a_, **k_):
+                                sleeps[0] += 1
+                                if state.get("nested"):
+                                    raise C.EvalRaise("Deadlock", "the peer waits although this socket has published itself")
+                                if arrive_at is not None and sleeps[0] == arrive_at:
+                                    state["nested"] = True
+                                    call(o, sc, "connect", Y)
+                                    state["y_connected"] = state["y_open"] = True
+                                    if inside == 2:
+                                        call(o, sc, "disconnect", Y)
+                                        state["y_open"] = False
+                                    state["nested"] = False
+                                    return None
+                                if sleeps[0] > 3:
+                                    raise C.EvalRaise("Deadlock", "nobody else will act")
+                                return None
+
+                            sc.externals.update({"timeit.default_timer": timer_, "time.sleep": sleep_, "weakref.WeakMethod": (lambda meth: (lambda: meth)),
+                                                 "threading.Lock": (lambda: _Log())})
+                            label = f"callbacks={use_cb} first={first} peer-arrives-at-sleep={arrive_at} peer-does={['nothing', 'connect', 'connect+disconnect'][inside]} timeout={timeout}"
+                            n_hist += 1
+                            outcome = "returned"
+                            try:
+                                call(o, sc, "connect", X, timeout=timeout)
+                            except C.EvalRaise as ex_:
+                                outcome = ex_.exc_name
+                            want = "returned" if arrive_at is not None else ("TimeoutError" if timeout is not None else "Deadlock")
+                            if outcome != want:
+                                problems.append((label, f"connect of the first endpoint: {outcome}, expected {want}" + (" (it returns before the peer has ever connected)" if outcome == "returned" else
+                                                                                                                    " (it never notices that the peer has been there)" if want == "returned" else "")))
+                                continue
+                            if arrive_at is None:
+                                continue
+                            if sleeps[0] != arrive_at:
+                                problems.append((label, f"connect slept {sleeps[0]} times, the peer was there after sleep {arrive_at}"))
+                            both = bool(call(o, sc, "is_connected", X))
+                            if both != (inside == 1):
+                                problems.append((label, f"is_connected after the rendezvous is {both}, expected {inside == 1}"))
+                            lost_before = (X.lost, Y.lost)
+                            if use_cb and inside == 2 and X.lost != 1:
+                                problems.append((label, f"the peer disconnected while this socket was registered: its connection-lost callback ran {X.lost} times, expected 1"))
+                            order = [X] if inside == 2 else ([X, Y] if x_first else [Y, X])
+                            try:
+                                for i_, s_ in enumerate(order):
+                                    other = Y if s_ is X else X
+                                    before = other.lost
+                                    other_registered = use_cb and not (inside == 2 and other is Y) and (i_ == 0)
+                                    call(o, sc, "disconnect", s_)
+                                    if other.lost - before != (1 if other_registered else 0):
+                                        problems.append((label, f"disconnect of {s_.app_name}: the peer's connection-lost callback ran {other.lost - before} times, expected {1 if other_registered else 0}"))
+                                    if bool(call(o, sc, "is_connected", s_)) or bool(call(o, sc, "is_connected", other)):
+                                        problems.append((label, f"is_connected still true after {s_.app_name} disconnected"))
+                            except C.EvalRaise as ex_:
+                                problems.append((label, f"disconnect raises {ex_.exc_name}"))
+                                continue
+                            left = {k_: v_ for k_, v_ in o.fields.items() if k_ in ("_open_sockets", "_remote_sockets", "_recv_callbacks", "_conn_lost_callbacks") and v_}
+                            if left:
+                                problems.append((label, f"after both endpoints have disconnected the hub still holds {left}: the next session of the same pair does not start clean"))
+    ctx.anchor(rule, "rendezvous histories executed", n_hist, 40)
+    by_text = {}
+    for label, why in problems:
+        by_text.setdefault(why.split(":")[0], (label, why))
+    ctx.check(rule, "connect/disconnect:endpoints-find-each-other-whichever-side-starts-first", not problems,
+              "; ".join(f"[{l_}] {w_}" for l_, w_ in list(by_text.values())[:3]), repo.loc(m, repo.lookup(hub, "disconnect")[1]),
+              sample={"histories": n_hist, "failing": len(problems)})
 
 
 def run(ctx):
@@ -301,16 +445,33 @@ def run(ctx):
                   "(it is still in the hub's queue) is then never received", ts.loc(fn), sample={"wrapper": meth})
     ctx.anchor("C18.W", "receive wrappers around hub.recv", n_recv, 3)
     # 0 is an ordinary id / value / address: nothing int-valued may be tested by truthiness (nqsa/truth.py)
+    try:
+        check_rendezvous(ctx, hub, "C18.R")
+    except AnalysisError as ex_:
+        ctx.error("C18.R", f"the registry code cannot be executed: {ex_}")
     from .. import truth
     truth.check(ctx, "C18.Z", ['netqasm.sdk.classical_communication.thread_socket.socket_hub', 'netqasm.sdk.classical_communication.thread_socket.socket'])
     # a value remembered for later calls is keyed by every argument it depends on (nqsa/memo.py)
     from .. import memo
     memo.check(ctx, "C18.K", ['netqasm.sdk.classical_communication.thread_socket.socket_hub', 'netqasm.sdk.classical_communication.thread_socket.socket'])
+    # no type test that an earlier type test has already decided (a subclass tested after its base class: nqsa/shadow.py)
+    from .. import shadow
+    shadow.check(ctx, "C18.H", ['netqasm.sdk.classical_communication.thread_socket.socket_hub', 'netqasm.sdk.classical_communication.thread_socket.socket'])
 
 
 H = "netqasm/sdk/classical_communication/thread_socket/socket_hub.py"
 S = "netqasm/sdk/classical_communication/thread_socket/socket.py"
 SEEDS = [
+    dict(id="c18-disconnect-clears-own-trace", file=H, expect="C18.R", construct="endpoints-find-each-other",
+         old="            if socket.remote_key in self._remote_sockets:\n                self._remote_sockets.remove(socket.remote_key)\n", new="            if socket.key in self._remote_sockets:\n                self._remote_sockets.remove(socket.key)\n"),
+    dict(id="c18-disconnect-leaves-traces", file=H, expect="C18.R", construct="endpoints-find-each-other",
+         old="            if socket.remote_key in self._remote_sockets:\n                self._remote_sockets.remove(socket.remote_key)\n", new=""),
+    dict(id="c18-wait-ignores-closed-again", file=H, expect="C18.R", construct="endpoints-find-each-other",
+         old="            if socket.remote_key in self._remote_sockets:\n                self._logger.debug(", new="            if socket.remote_key in self._remote_sockets and socket.remote_key in self._open_sockets:\n                self._logger.debug("),
+    dict(id="c18-wait-own-trace", file=H, expect="C18.R", construct="endpoints-find-each-other",
+         old="            if socket.remote_key in self._remote_sockets:\n                self._logger.debug(", new="            if socket.key in self._remote_sockets:\n                self._logger.debug("),
+    dict(id="c18-timeout-never-raised", file=H, expect="C18.R", construct="endpoints-find-each-other", old="                if t_elapsed > timeout:\n                    app_name = socket.app_name", new="                if t_elapsed < -timeout:\n                    app_name = socket.app_name"),
+    dict(id="c18-lost-callback-of-own-socket", file=H, expect="C18.R", construct="endpoints-find-each-other", old="            conn_lost_callback = self._conn_lost_callbacks.get(socket.remote_key)", new="            conn_lost_callback = self._conn_lost_callbacks.get(socket.key)"),
     dict(id="c18-recv-refuses-when-peer-gone", file=S, expect="C18.W", construct="ThreadSocket.recv_structured:",
          old="        # TODO use maxsize?\n        msg = self._SOCKET_HUB.recv(self, block=block, timeout=timeout)\n        # if not isinstance(msg, StructuredMessage):",
          new="        if not self.connected:\n            raise ConnectionError(\"not connected\")\n        msg = self._SOCKET_HUB.recv(self, block=block, timeout=timeout)\n        # if not isinstance(msg, StructuredMessage):"),
@@ -327,5 +488,8 @@ SEEDS = [
     dict(id="c18-stale", file=H, expect="C18.E", construct="returns-the-popped", old="                    msg = messages.pop(0)\n", new="                    msg = messages[-1]\n                    messages.pop(0)\n"),
 ]
 BENIGN = [
+    dict(id="c18-benign-discard", file=H, old="            if socket.key in self._open_sockets:\n                self._open_sockets.remove(socket.key)\n            if socket.remote_key in self._remote_sockets:\n                self._remote_sockets.remove(socket.remote_key)\n",
+         new="            self._open_sockets.discard(socket.key)\n            self._remote_sockets.discard(socket.remote_key)\n"),
+    dict(id="c18-benign-wait-one-test", file=H, old="            if socket.remote_key in self._open_sockets:\n                self._logger.debug(f\"Connection for socket {socket.key} successful\")\n                return\n", new="            if socket.remote_key in self._open_sockets:\n                return\n"),
     dict(id="c18-benign-peek-then-pop", file=H, old="                    msg = messages.pop(0)\n", new="                    msg = messages[0]\n                    messages.pop(0)\n"),
 ]
